@@ -551,6 +551,11 @@ func RunStore(fx *Fixtures, up *client.Upstream, dir string, n int, s AbstractSt
 			},
 		},
 	})
+	// a metrics collection comes by: looking at the certificates must not change them
+	if err == nil {
+		CollectMetrics()
+	}
+
 	if err != nil {
 		// the service does not start with this key store: nothing is issued, nothing to judge
 		for k, c := range cases {
